@@ -75,6 +75,8 @@ package seccomp
 //@   ensures @unplaced {C06} riS(old(*p)) ==> !has(p.labels, result)
 
 //@ func (p *Program) currentIndex() Index   properties C06
+//@   deterministic C13
+//@   frame_props C13
 //@   requires p != nil
 //@   ensures result == len(p.instructions)
 
@@ -422,6 +424,8 @@ package seccomp
 //@ macro labelsShifted(L1, L0, a) = nonnil(L1) == nonnil(L0) && forallk(l, L1, has(L1, l) == has(L0, l) && len(L1[l]) == len(L0[l]) && forall(m, 0, len(L1[l]), L1[l][m] == sh(L0[l][m], a)))
 
 //@ func (p *Program) destination(jump JumpIf, label Label) (Index, error)   properties C06
+//@   deterministic C13
+//@   frame_props C13
 //@   requires p != nil
 //@   let s = p.labels[label]
 //@   let m = firstIdxAbove(s, jump.index, 0)
@@ -431,6 +435,8 @@ package seccomp
 //@     invariant @scan firstIdxAbove(s, jump.index, 0) == firstIdxAbove(s, jump.index, k) && forall(j, 0, k, s[j] <= jump.index)
 
 //@ func (p *Program) computeSkipN(jump JumpIf, label Label) (int, error)   properties C06
+//@   deterministic C13
+//@   frame_props C13
 //@   requires p != nil
 //@   requires @index jump.index >= 0
 //@   let s = p.labels[label]
@@ -441,6 +447,9 @@ package seccomp
 // every recorded index is at most n
 //@ macro idxBelow(p, n) = forall(k, 0, len(p.jumps), p.jumps[k].index < n) && forallk(l, p.labels, forall(m, 0, len(p.labels[l]), p.labels[l][m] < n))
 //@ func (p *Program) updateIndices(after Index)   properties C06
+//@   deterministic C13
+//@   frame_props C13
+//@   determined
 //@   requires p != nil
 //@   requires @bounded idxBelow(p, len(p.instructions))
 //@   modifies p, ghost.apos
@@ -464,6 +473,8 @@ package seccomp
 // Assumption (listed in evidence): a program has fewer than 2^32 instructions (2^32 interface values are 64 GiB),
 // so that the distance of an unconditional jump fits its 32-bit field.
 //@ func (p *Program) insertBridge(at Index, jump JumpIf, label Label)   properties C06
+//@   deterministic C13
+//@   frame_props C13
 //@   requires p != nil
 //@   let s = p.labels[label]
 //@   let d = s[ghost.wm]
@@ -674,6 +685,8 @@ package seccomp
 // Contract of label resolution (property C06). A0 is the arbitrary accumulator with which the block is entered:
 // p.G must have been started as Ginit(A0).
 //@ func (p *Program) Assemble() ([]bpf.Instruction, error)   properties C06
+//@   deterministic C13
+//@   frame_props C13
 //@   requires p != nil
 //@   requires @ri riS(*p)
 //@   use riLink(*p) at entry
